@@ -34,7 +34,6 @@ pub struct BigUint {
 //@ end
 //@ include prelude/biguint_view.rs
 pub open spec fn p2(k: nat) -> nat { vstd::arithmetic::power2::pow2(k) }
-pub open spec fn rev8(s: Seq<u8>) -> Seq<u8> { Seq::new(s.len(), |i: int| s[s.len() - 1 - i]) }
 impl BigUint {
 //@ stub u_core/is_zero
 }
